@@ -4,7 +4,7 @@ From LD Require Import Base F32 Data Scan Semver Time Model Ops TimeSpec TimeFul
 (* a rendered RFC 3339 UTC timestamp (years 0000-9999, T/t, Z/z, second 60 allowed) is parsed to the instant of its
    civil fields *)
 Theorem C18_parse_render_utc : forall y mo d h mi sec tl zl,
-  (0 <= y <= 9999 -> 1 <= mo <= 12 -> 1 <= d <= 31 -> 0 <= h <= 23 -> 0 <= mi <= 59 -> 0 <= sec <= 60 ->
+  (0 <= y <= 9999 -> 1 <= mo <= 12 -> 1 <= d <= days_in_month y mo -> 0 <= h <= 23 -> 0 <= mi <= 59 -> 0 <= sec <= 60 ->
   (tl = 84%N \/ tl = 116%N) -> (zl = 90%N \/ zl = 122%N) ->
   parse_rfc3339 (render_utc y mo d h mi sec tl zl) = Some (civil_instant y mo d h mi sec))%Z.
 Proof. exact parse_render_utc. Qed.
@@ -58,14 +58,14 @@ Print Assumptions C18_invalid_clause_value_never_matches.
    offset +hh:mm / -hh:mm; instant is the instant it denotes (days_from_civil is the Gregorian day count, the offset is
    subtracted, the fraction is scaled to nanoseconds). The scanner returns exactly that instant. *)
 Theorem C18_parse_render_full : forall y mo d h mi sec tl fs z,
-  (0 <= y <= 9999 -> 1 <= mo <= 12 -> 1 <= d <= 31 -> 0 <= h <= 23 -> 0 <= mi <= 59 -> 0 <= sec <= 60 ->
+  (0 <= y <= 9999 -> 1 <= mo <= 12 -> 1 <= d <= days_in_month y mo -> 0 <= h <= 23 -> 0 <= mi <= 59 -> 0 <= sec <= 60 ->
    (tl = 84%N \/ tl = 116%N) -> Forall (fun x => 0 <= x <= 9) fs -> zlen fs <= 9 -> zone_ok z ->
    parse_rfc3339 (render_full y mo d h mi sec tl fs z) = Some (instant y mo d h mi sec fs z))%Z.
 Proof. exact parse_render_full. Qed.
 Print Assumptions C18_parse_render_full.
 (* the same local time with an offset is the UTC instant shifted by that offset *)
 Theorem C18_offset_shifts_instant : forall y mo d h mi sec tl fs minus oh om,
-  (0 <= y <= 9999 -> 1 <= mo <= 12 -> 1 <= d <= 31 -> 0 <= h <= 23 -> 0 <= mi <= 59 -> 0 <= sec <= 60 ->
+  (0 <= y <= 9999 -> 1 <= mo <= 12 -> 1 <= d <= days_in_month y mo -> 0 <= h <= 23 -> 0 <= mi <= 59 -> 0 <= sec <= 60 ->
    (tl = 84%N \/ tl = 116%N) -> Forall (fun x => 0 <= x <= 9) fs -> zlen fs <= 9 -> 0 <= oh <= 99 -> 0 <= om <= 59 ->
    exists t0, parse_rfc3339 (render_full y mo d h mi sec tl fs (ZU 90%N)) = Some t0 /\
               parse_rfc3339 (render_full y mo d h mi sec tl fs (ZOff minus oh om)) =
@@ -80,3 +80,27 @@ Theorem C18_legacy_refuted :
    instant_of_millis (dy_of_Z 253402300799000) = 253402300799000 * 1000000)%Z.
 Proof. exact Legacy.C18_legacy_refuted. Qed.
 Print Assumptions C18_legacy_refuted.
+
+(* ---- the rejection half: the accepted strings are exactly the renderings of valid civil times ---- *)
+From LD Require Import TimeAccept.
+(* [is_timestamp s t]: s is, character for character, a 4-digit year, '-', 2-digit month 01..12, '-', a 2-digit day that
+   the month has, 'T'/'t', an hour 0..23 of one or two digits, ':', 2-digit minute, ':', 2-digit second 00..60, an
+   optional '.' with 1..9 digits, and 'Z'/'z' or '+'/'-' hh ':' mm (hh 00..99, mm 00..59); t is the instant it denotes *)
+Theorem C18_accepts_exactly_the_timestamps : forall s t, parse_rfc3339 s = Some t <-> is_timestamp s t.
+Proof. exact accepts_exactly_the_timestamps. Qed.
+Print Assumptions C18_accepts_exactly_the_timestamps.
+
+(* anything else -- a missing or garbled field, a truncated string, characters before or after -- never matches *)
+Theorem C18_non_timestamp_string_never_matches : forall c s i f,
+  (forall t, ~ is_timestamp s t) -> date_op c (JStr s) i f = false.
+Proof. exact non_timestamp_never_matches. Qed.
+Print Assumptions C18_non_timestamp_string_never_matches.
+
+(* the original scanner accepted trailing characters after 'Z', a NUL / non-ASCII tail after an offset, and February 31 *)
+Theorem C18_scanner_legacy_refuted :
+  (parse_rfc3339_legacy ts_trailing = parse_rfc3339 (s "2020-01-01T00:00:00Z") /\ parse_rfc3339 ts_trailing = None) /\
+  (parse_rfc3339_legacy ts_nonascii = parse_rfc3339 (s "2020-01-01T00:00:00+01:00") /\ parse_rfc3339 ts_nonascii = None) /\
+  (parse_rfc3339_legacy ts_feb31 = parse_rfc3339 (s "2020-03-02T00:00:00Z") /\ parse_rfc3339 ts_feb31 = None) /\
+  parse_rfc3339 (s "2020-01-01T00:00:00Z") <> None.
+Proof. exact Legacy.C18_scanner_legacy_refuted. Qed.
+Print Assumptions C18_scanner_legacy_refuted.
